@@ -22,7 +22,12 @@ def one(ctx: Ctx, spec, dtype, m, exhaustive):
     if spec.name == "Krum":
         m = max(m, 5)      # with m - f - 2 = 1 neighbour, mutually nearest rows have EXACTLY tied scores (excluded)
     n = rng.choice([m, m + 1, m + 2])
-    if spec.pinv or spec.solver or spec.ties or spec.threshold:
+    if not (spec.pinv or spec.solver) and spec.name != "Krum" and rng.random() < 0.5:
+        # nearly aligned rows of very different lengths (the minimum-norm point sits at a vertex)
+        base = [Fr(rng.randint(1, 9)) for _ in range(n)]
+        J = [[Fr(rng.choice([1, 3, 7, 20])) * b + Fr(rng.randint(-3, 3), 16) for b in base] for _ in range(m)]
+        ctx.count("family", "aligned-unbalanced")
+    elif spec.pinv or spec.solver or spec.ties or spec.threshold:
         J = well_conditioned(rng, m, n)
     else:
         J = [[Fr(rng.randint(-9, 9)) + Fr(rng.randint(0, 7), 8) for _ in range(n)] for _ in range(m)]   # no exact ties
@@ -63,7 +68,7 @@ def main(ctx: Ctx):
     ctx.lean_gate()
     cat = [s for s in catalogue() if s.name in INVARIANT]
     quick = ctx.tier == "quick"
-    reps = 2 if quick else 150
+    reps = 5 if quick else 150
     for rep in range(reps):
         for m in ((2, 3, 4) if quick else (2, 3, 4, 5)):
             for spec in cat:
